@@ -1,4 +1,6 @@
 import AdeuModel.Model.Str
+import AdeuModel.Model.Trim
+import AdeuModel.Model.WordTable
 /-
 Model of `adeu.diff.generate_edits_from_text` *after* diff-match-patch has produced the decoded
 diff list: the `current_original_index` / `pending_delete` loop.  diff-match-patch itself is a
@@ -29,9 +31,8 @@ def flush : Option (Nat × Str) → List Edit
   | none => []
   | some (i, d) => [⟨i, d, []⟩]
 
-/-- `next_text.split(" ")[0] if " " in next_text else next_text[:20]` -/
-def anchorTarget (next : Str) : Str :=
-  if next.contains ' ' then next.takeWhile (· != ' ') else next.take 20
+/-- `re.match(r"\w+", next_text)`: the first word (empty when the text does not start with one) -/
+def anchorTarget (next : Str) : Str := next.takeWhile pyIsWord
 
 /-- The standard (non start-of-document) pure insertion: empty target at the cursor. -/
 def stdIns (cur : Nat) (t : Str) : Edit := ⟨cur, [], t⟩
@@ -107,5 +108,130 @@ def dstTok : TokDiffList → List Str
   | (.eq, t) :: ds => t ++ dstTok ds
   | (.del, _) :: ds => dstTok ds
   | (.ins, t) :: ds => t ++ dstTok ds
+
+end Adeu.Diff
+
+namespace Adeu.Diff
+open Adeu
+
+/-- the `comment` each emitted edit carries (aligned with `go`) -/
+def flushNote : Option (Nat × Str) → List String
+  | none => []
+  | some _ => ["Diff: Text deleted"]
+
+def goNotes : DiffList → Nat → Option (Nat × Str) → List String
+  | [], _, p => flushNote p
+  | (.eq, t) :: ds, cur, p => flushNote p ++ goNotes ds (cur + t.length) none
+  | (.del, t) :: ds, cur, none => goNotes ds (cur + t.length) (some (cur, t))
+  | (.del, t) :: ds, cur, some (i, d) => goNotes ds (cur + t.length) (some (i, d ++ t))
+  | (.ins, _) :: ds, cur, some _ => "Diff: Replacement" :: goNotes ds cur none
+  | (.ins, _) :: ds, cur, none =>
+      if cur = 0 then
+        match ds with
+        | (.eq, nt) :: _ =>
+            if anchorTarget nt = [] then "Diff: Text inserted" :: goNotes ds cur none
+            else "Diff: Start-of-doc insertion" :: goNotes ds cur none
+        | _ => "Diff: Text inserted" :: goNotes ds cur none
+      else "Diff: Text inserted" :: goNotes ds cur none
+
+def notesOfDiffs (ds : DiffList) : List String := goNotes ds 0 none
+
+end Adeu.Diff
+
+/-! ### `_split_at_separators`: a replacement whose two sides share their separators is split into
+one change per segment. -/
+namespace Adeu.Diff
+open Adeu
+
+def sp (c : Char) : Bool := Trim.pyIsSpace c
+
+/-- length of the match of `\s*\n\s*| \| ` at the head of `r` (0: no match).  The first alternative
+matches exactly when the maximal whitespace run at the head contains a line break, and then it
+matches the whole run. -/
+def sepAt (r : Str) : Nat :=
+  let w := r.takeWhile sp
+  if w.contains '\n' then w.length
+  else if r.take 3 = [' ', '|', ' '] then 3 else 0
+
+/-- `_SEPARATOR.split(s)`: `[text, sep, text, …, text]` (odd length). `cur` is the text collected
+since the last separator. -/
+def sepSplitFuel : Nat → Str → Str → List Str
+  | 0, cur, r => [cur ++ r]
+  | _ + 1, cur, [] => [cur]
+  | n + 1, cur, c :: r =>
+      if sepAt (c :: r) = 0 then sepSplitFuel n (cur ++ [c]) r
+      else cur :: (c :: r).take (sepAt (c :: r)) :: sepSplitFuel n [] ((c :: r).drop (sepAt (c :: r)))
+
+def sepSplit (s : Str) : List Str := sepSplitFuel s.length [] s
+
+/-- the next token of `_TOKEN_PATTERN` at the head of a non-empty `r`; `ls`: at the start of a line -/
+def nextTokG (sp isw : Char → Bool) (ls : Bool) (r : Str) : Str × Str :=
+  let hashes := r.takeWhile (· == '#')
+  if ls && !hashes.isEmpty && (r.drop hashes.length).head? == some ' ' then
+    (r.take (hashes.length + 1), r.drop (hashes.length + 1))
+  else if r.take 3 = [' ', '|', ' '] then (r.take 3, r.drop 3)
+  else match r with
+    | [] => ([], [])
+    | c :: _ =>
+      if c == '\n' then (r.takeWhile (· == '\n'), r.dropWhile (· == '\n'))
+      else if sp c then (r.takeWhile (fun x => sp x && x != '\n'), r.dropWhile (fun x => sp x && x != '\n'))
+      else if isw c then (r.takeWhile isw, r.dropWhile isw)
+      else (r.take 1, r.drop 1)
+
+def nextTok (ls : Bool) (r : Str) : Str × Str := nextTokG sp pyIsWord ls r
+
+def tokensFuel : Nat → Bool → Str → List Str
+  | 0, _, r => if r.isEmpty then [] else [r]
+  | n + 1, ls, r =>
+      if r.isEmpty then []
+      else
+        let (t, rest) := nextTok ls r
+        t :: tokensFuel n (t.getLast? == some '\n') rest
+
+/-- `[t for t in re.split(_TOKEN_PATTERN, s) if t]` -/
+def tokens (s : Str) : List Str := tokensFuel s.length true s
+
+def commonPrefixLen : List Str → List Str → Nat
+  | a :: as, b :: bs => if a = b then commonPrefixLen as bs + 1 else 0
+  | _, _ => 0
+
+/-- the pieces emitted for one pair of segments -/
+def pieces (d i : Str) : DiffList :=
+  let dt := tokens d
+  let it := tokens i
+  let lead := commonPrefixLen dt it
+  let trail := min (commonPrefixLen dt.reverse it.reverse) (min dt.length it.length - lead)
+  [(Op.eq, flat (dt.take lead)),
+   (Op.del, flat ((dt.drop lead).take (dt.length - lead - trail))),
+   (Op.ins, flat ((it.drop lead).take (it.length - lead - trail))),
+   (Op.eq, flat (dt.drop (dt.length - trail)))].filter fun p => !p.2.isEmpty
+
+/-- same number of parts, same separators -/
+def compat : List Str → List Str → Bool
+  | [_], [_] => true
+  | _ :: s :: dr, _ :: s' :: ir => s == s' && compat dr ir
+  | _, _ => false
+
+def segments : List Str → List Str → DiffList
+  | d :: s :: dr, i :: _ :: ir => pieces d i ++ (Op.eq, s) :: segments dr ir
+  | [d], [i] => pieces d i
+  | _, _ => []
+
+def splitPair (d i : Str) : Option DiffList :=
+  let dp := sepSplit d
+  let ip := sepSplit i
+  if dp.length > 1 && compat dp ip then some (segments dp ip) else none
+
+def splitDiffs : DiffList → DiffList
+  | (.del, d) :: (.ins, i) :: rest =>
+      match splitPair d i with
+      | some ps => ps ++ splitDiffs rest
+      | none => (.del, d) :: splitDiffs ((.ins, i) :: rest)
+  | x :: rest => x :: splitDiffs rest
+  | [] => []
+
+/-- `generate_edits_from_text` after diff-match-patch: separator splitting, then the loop -/
+def editsOfRaw (ds : DiffList) : List Edit := editsOfDiffs (splitDiffs ds)
+def notesOfRaw (ds : DiffList) : List String := notesOfDiffs (splitDiffs ds)
 
 end Adeu.Diff
